@@ -194,6 +194,8 @@ func recvWorker() {
 				burst = newBurstRunner()
 			}
 			c = burst.run(in)
+		} else if in.Kind == "chain" {
+			c = runChain(in)
 		} else {
 			c = runRecv(in, filepath.Join(dir, fmt.Sprintf("s%d", n)))
 		}
